@@ -153,6 +153,14 @@ Definition notice_types : list bytes := map bs
   ["change-update"; "warning"; "refresh-inhibit"; "snap-run-inhibit"; "interfaces-requests-prompt";
    "interfaces-requests-rule-update"]%string.
 
+(* short names used by the generated case files (a string literal is expensive to elaborate) *)
+Definition nt (i : N) : bytes := nth (N.to_nat i) notice_types [].
+Definition kind_b : bytes := bs "kind".
+Definition str_table : list bytes := map bs ["i"; "r"; "a"; "b c"; "<&"; "rm"; "k"; "s-s"; "z"; "y"; "INFO"; "ERROR"; "1"; "2"; "3"; "-"; "key"; "x y"; "true"]%string.
+Definition sx (i : N) : bytes := nth (N.to_nat i) str_table [].
+(* an instant or duration given as minutes and nanoseconds *)
+Definition tm (m ns : Z) : Z := (m * 60000000000 + ns)%Z.
+
 (* ValidateNotice *)
 Definition validate_notice (ty key : bytes) : bool :=
   existsb (beq ty) notice_types && negb (is_nil_b key) && (N.of_nat (length key) <=? 256)
